@@ -79,6 +79,11 @@ func (l *Link) send(ctx context.Context, b []byte) error {
 		return nil
 	}
 	l.inflight = append(l.inflight, p)
+	if lat := l.w.sc.Latency; lat > 0 {
+		// wake the scheduler when the packet becomes deliverable
+		s := l.w.s
+		time.AfterFunc(lat, s.Poke)
+	}
 	return nil
 }
 
@@ -314,6 +319,10 @@ type World struct {
 	findKeys    map[string]bool
 	reached     map[string]bool
 	foreign     []string
+	canonical   bool // the schedule has no deviation at all
+	endAt       time.Duration
+	endState    [2]string // client, server state when the run proper ended
+	endSnap     [2]gbn.VerifSnap
 	closersUsed int
 	injectUsed  int
 	blackholed  bool
@@ -358,6 +367,14 @@ func newWorld(s *vrt.Sched, sc *Scenario) *World {
 	}
 
 	startClient := func() {
+		if sc.RawClient != nil {
+			s.Spawn("raw-client", func() {
+				w.appStart()
+				defer w.appEnd()
+				sc.RawClient(w)
+			})
+			return
+		}
 		s.Spawn("client-main", func() {
 			w.appStart()
 			defer w.appEnd()
@@ -404,6 +421,9 @@ func (w *World) spawnScripts(e *Endpoint, scripts [][]Op) {
 }
 
 func (w *World) handshakeDone() bool {
+	if w.sc.RawClient != nil {
+		return w.S.CtorDone
+	}
 	return w.C.CtorDone && w.S.CtorDone
 }
 
@@ -415,6 +435,14 @@ func (w *World) Actions() []vrt.Action {
 		sc.PreActions(w)
 	}
 	hc, hs := w.c2s.head(), w.s2c.head()
+	if sc.Latency > 0 {
+		if hc != nil && w.s.Now() < hc.At+sc.Latency {
+			hc = nil
+		}
+		if hs != nil && w.s.Now() < hs.At+sc.Latency {
+			hs = nil
+		}
+	}
 	if w.c2s.hold {
 		hc = nil
 	}
@@ -530,6 +558,41 @@ func (w *World) Quiescent(s *vrt.Sched) bool {
 		return s.Now() >= w.goalAt+w.sc.IdleAfter
 	}
 	return false
+}
+
+// DelayAllowed says whether the environment may delay a deliverable packet
+// past the next timer at this moment (a transport fault like drop and dup).
+func (w *World) DelayAllowed() bool {
+	sc := w.sc
+	if !(sc.Faults.Drop || sc.Faults.Dup || sc.Faults.Delay) {
+		return false
+	}
+	if sc.Faults.AfterHandshake && !w.handshakeDone() {
+		return false
+	}
+	if sc.Faults.Max > 0 && w.faultsUsed >= sc.Faults.Max {
+		return false
+	}
+	return true
+}
+
+// OnDelay is called when a delay fault is taken.
+func (w *World) OnDelay() {
+	w.faultsUsed++
+	w.lastFaultAt = w.s.Now()
+}
+
+// BeforeDrain records the end state of the run proper, before the harness
+// shuts everything down.
+func (w *World) BeforeDrain(s *vrt.Sched) {
+	monClosed(w)
+	w.endAt = s.Now()
+	w.endState = [2]string{sideState(w.C), sideState(w.S)}
+	for i, e := range []*Endpoint{w.C, w.S} {
+		if e.Conn != nil {
+			w.endSnap[i] = e.Conn.VerifSnapshot()
+		}
+	}
 }
 
 // Drain implements the optional drain hook: shut both ends down the way an
